@@ -194,7 +194,7 @@ def run(ctx):
     M = menu(d)
     Vs = common.Violations(keep=6)
     # (1) in-process schedule exploration
-    res = pool.pmap(_explore_script, list(M.items()), chunk=1)
+    res = pool.pmap(_explore_script, list(M.items()), chunk=1, timeout=1800)
     schedules = 0
     inproc = {}
     maxpts = 0
